@@ -113,6 +113,14 @@ m("minmax-no-aggregate-second-loop", "_snapshot/min_max_value.py", "        retu
 m("collection-shared-list", "_snapshot/collection_value.py", "            self._new_value = [clone(item)]", "            self._new_value = CollectionValue._shared = getattr(CollectionValue, '_shared', None) or [clone(item)]", ["C14", "C05"], "all `in` snapshots share one member list")
 
 
+# ---- C17
+m("no-clone-contains", "_snapshot/collection_value.py", "                self._new_value.append(clone(item))", "                self._new_value.append(item)", ["C17"], "`in` members recorded by reference")
+m("no-clone-minmax", "_snapshot/min_max_value.py", "            if not self.cmp(self._new_value, other):\n                self._new_value = clone(other)", "            if not self.cmp(self._new_value, other):\n                self._new_value = other", ["C17"], "later extreme values recorded by reference")
+m("no-clone-eq", "_snapshot/eq_value.py", "self._ast_node, clone(other)))", "self._ast_node, other))", ["C17"], "== value recorded by reference")
+m("shallow-copy", "_snapshot/generic_value.py", "    new = copy.deepcopy(obj)", "    new = copy.copy(obj)", ["C17"], "shallow copy: nested mutation leaks")
+m("no-selfcheck", "_snapshot/generic_value.py", "    if not obj == new:", "    if False:", ["C17"], "unequal copies are recorded silently")
+
+
 def make_copy(mut):
     base = os.environ.get("VERIF_TMP") or ("/dev/shm" if os.path.isdir("/dev/shm") else tempfile.gettempdir())
     d = Path(tempfile.mkdtemp(prefix="mutant-", dir=base))
